@@ -116,6 +116,7 @@ func newKey(r *core.Rand) keyT {
 }
 
 type signed struct {
+	hts        string // "+"-joined hash types of the signatures carried, if they differ per signer
 	form, mode string
 	tx         *wire.MsgTx
 	spent      []*wire.TxOut
@@ -267,6 +268,156 @@ func buildSigned(r *core.Rand, kind string, ht txscript.SigHashType, nIn, nOut, 
 			return res
 		}
 		tx.TxIn[idx].SignatureScript = ss
+
+	case "multisig-rounds", "p2sh-multisig-rounds", "multisig-15":
+		// m-of-n multisig signed through SignTxOutput in several rounds, each signer with its OWN hash
+		// type, every order of rounds, re-merging complete scripts, junk and foreign signatures in between
+		res.form = "legacy"
+		n := 1 + r.Intn(3)
+		m := 1 + r.Intn(n)
+		if kind == "multisig-15" {
+			n, m = 15, 15
+		}
+		defd := []txscript.SigHashType{1, 2, 3, 0x81, 0x82, 0x83}
+		keys := make([]keyT, n)
+		addrs := make([]*address.AddressPubKey, n)
+		names := make([]string, n)
+		hts := make([]txscript.SigHashType, n)
+		for i := range keys {
+			keys[i] = newKey(r)
+			a, err := address.NewAddressPubKey(keys[i].pub.SerializeCompressed(), params)
+			must(err)
+			addrs[i], names[i] = a, a.EncodeAddress()
+			hts[i] = defd[r.Intn(len(defd))]
+		}
+		if n >= 2 && r.Chance(1, 2) { // same low bits, different ANYONECANPAY
+			hts[1] = hts[0] ^ 0x80
+		}
+		ms, err := txscript.MultiSigScript(addrs, m)
+		must(err)
+		pkScript := ms
+		sdb := txscript.ScriptDB(noScripts)
+		if kind == "p2sh-multisig-rounds" {
+			sa, err := address.NewAddressScriptHash(ms, params)
+			must(err)
+			pkScript, err = txscript.PayToAddrScript(sa)
+			must(err)
+			sdb = txscript.ScriptClosure(func(address.Address) ([]byte, error) { return ms, nil })
+		}
+		spent[idx].PkScript = pkScript
+		// junk that looks like a signature push, and a genuine signature of key 0 for ANOTHER input index
+		withJunk := func(prev []byte) []byte {
+			var pushes [][]byte
+			tk := txscript.MakeScriptTokenizer(0, prev)
+			for tk.Next() {
+				pushes = append(pushes, tk.Data())
+			}
+			b := txscript.NewScriptBuilder().AddOp(txscript.OP_0)
+			junk := append([]byte{0x30, 0x06, 0x02, 0x01, byte(1 + r.Intn(100)), 0x02, 0x01, byte(1 + r.Intn(100))}, byte(defd[r.Intn(6)]))
+			b.AddData(junk)
+			if len(tx.TxIn) > 1 {
+				other := (idx + 1) % len(tx.TxIn)
+				if fs, err := txscript.RawTxInSignature(tx, other, ms, hts[0], keys[0].priv); err == nil {
+					b.AddData(fs)
+				}
+			}
+			for _, d := range pushes {
+				if len(d) > 0 {
+					b.AddData(d)
+				}
+			}
+			out, err := b.Script()
+			must(err)
+			return out
+		}
+		order := make([]int, n)
+		for i := range order {
+			order[i] = i
+		}
+		for i := n - 1; i > 0; i-- { // random order of rounds
+			j := r.Intn(i + 1)
+			order[i], order[j] = order[j], order[i]
+		}
+		rounds := order[:m+r.Intn(n-m+1)] // at least m signers, sometimes more than needed
+		if r.Chance(1, 3) {                // a signer signs again: re-merge an already complete script
+			rounds = append(rounds, rounds[r.Intn(len(rounds))])
+		}
+		var prev []byte
+		for k, who := range rounds {
+			kdb := kdbFor(map[string]keyT{names[who]: keys[who]}, map[string]bool{names[who]: true})
+			if prev != nil && r.Chance(1, 3) && kind != "multisig-15" {
+				prev = withJunk(prev)
+			}
+			ss, err := txscript.SignTxOutput(params, tx, idx, pkScript, hts[who], kdb, sdb, prev)
+			if err != nil {
+				res.err = true
+				return res
+			}
+			prev = ss
+			_ = k
+		}
+		tx.TxIn[idx].SignatureScript = prev
+		// the hash types of the signatures the final script carries
+		var used []string
+		tk := txscript.MakeScriptTokenizer(0, prev)
+		for tk.Next() {
+			if d := tk.Data(); len(d) > 8 && d[0] == 0x30 {
+				used = append(used, fmt.Sprint(uint32(d[len(d)-1])))
+			}
+		}
+		if len(used) == 0 {
+			used = []string{"1"}
+		}
+		res.hts = strings.Join(used, "+")
+
+	case "p2pkh-resign", "p2pk-resign", "p2sh-p2pkh-resign":
+		// single-signature classes signed twice with different hash types, the second time merging with
+		// the first script (mergeScripts keeps the longer one): whichever survives must verify
+		res.form = "legacy"
+		k := newKey(r)
+		keys := map[string]keyT{}
+		comp := map[string]bool{}
+		var pkScript, redeem []byte
+		if kind == "p2pk-resign" {
+			a, err := address.NewAddressPubKey(k.pub.SerializeCompressed(), params)
+			must(err)
+			keys[a.EncodeAddress()], comp[a.EncodeAddress()] = k, true
+			pkScript, err = txscript.PayToAddrScript(a)
+			must(err)
+		} else {
+			a, err := address.NewAddressPubKeyHash(address.Hash160(k.pub.SerializeCompressed()), params)
+			must(err)
+			keys[a.EncodeAddress()], comp[a.EncodeAddress()] = k, true
+			pkScript, err = txscript.PayToAddrScript(a)
+			must(err)
+		}
+		sdb := txscript.ScriptDB(noScripts)
+		if kind == "p2sh-p2pkh-resign" {
+			redeem = pkScript
+			sa, err := address.NewAddressScriptHash(redeem, params)
+			must(err)
+			pkScript, err = txscript.PayToAddrScript(sa)
+			must(err)
+			sdb = txscript.ScriptClosure(func(address.Address) ([]byte, error) { return redeem, nil })
+		}
+		spent[idx].PkScript = pkScript
+		defd := []txscript.SigHashType{1, 2, 3, 0x81, 0x82, 0x83}
+		var prev []byte
+		for round := 0; round < 2+r.Intn(2); round++ {
+			ss, err := txscript.SignTxOutput(params, tx, idx, pkScript, defd[r.Intn(6)], kdbFor(keys, comp), sdb, prev)
+			if err != nil {
+				res.err = true
+				return res
+			}
+			prev = ss
+		}
+		tx.TxIn[idx].SignatureScript = prev
+		tk := txscript.MakeScriptTokenizer(0, prev)
+		for tk.Next() {
+			if d := tk.Data(); len(d) > 8 && d[0] == 0x30 {
+				res.hts = fmt.Sprint(uint32(d[len(d)-1]))
+			}
+		}
 
 	case "legacy-codesep":
 		// <pk1> CHECKSIGVERIFY CODESEPARATOR <pk2> CHECKSIG, signed with RawTxInSignature on the
@@ -627,13 +778,47 @@ func mutate(r *core.Rand, kind string, tx *wire.MsgTx, spent []*wire.TxOut, idx 
 
 var signKinds = []string{"p2pk", "p2pkh", "p2pkh-u", "multisig", "p2sh-p2pkh", "p2sh-multisig", "legacy-codesep",
 	"multisig-merge", "p2sh-multisig-merge", "p2sh-p2wpkh", "p2tr-key-tree", "p2tr-script-codesep", "p2pkh-direct", "p2pkh-direct-u", "p2wpkh-u",
+	"multisig-rounds", "p2sh-multisig-rounds", "multisig-rounds", "p2sh-multisig-rounds", "p2pkh-resign", "p2pk-resign",
+	"p2sh-p2pkh-resign",
 	"p2wpkh", "p2wsh", "p2wsh-codesep", "p2wsh-multisig", "p2tr-key", "p2tr-script"}
+
+// SignTxOutput on pkScript classes it cannot sign: must return an error, never a script
+func genSignClasses(g *core.Gen) {
+	r := g.R
+	k := newKey(r)
+	h20 := address.Hash160(k.pub.SerializeCompressed())
+	classes := map[string][]byte{
+		"wpkh":     append([]byte{0x00, 0x14}, h20...),
+		"wsh":      append([]byte{0x00, 0x20}, r.Bytes(32)...),
+		"tr":       append([]byte{0x51, 0x20}, r.Bytes(32)...),
+		"nulldata": append([]byte{0x6a, 0x04}, r.Bytes(4)...),
+		"nonstd":   {0x76, 0x76, 0x87},
+		"empty":    {},
+	}
+	names := []string{"wpkh", "wsh", "tr", "nulldata", "nonstd", "empty"}
+	any := txscript.KeyClosure(func(address.Address) (*btcec.PrivateKey, bool, error) { return k.priv, true, nil })
+	noS := txscript.ScriptClosure(func(address.Address) ([]byte, error) { return nil, fmt.Errorf("nope") })
+	for _, name := range names {
+		for _, ht := range []txscript.SigHashType{1, 0x83} {
+			tx, _ := randTx(r, 2, 2)
+			obs := "err"
+			if ss, err := txscript.SignTxOutput(params, tx, 0, classes[name], ht, any, noS, nil); err == nil {
+				obs = "script:" + hx(ss)
+			}
+			g.Case("sign-unsignable-class", true, fmt.Sprintf("C07 signclass %s %s", name, obs))
+		}
+	}
+}
 
 func genSign(g *core.Gen) {
 	r := g.R
+	genSignClasses(g)
 	definedHT := []txscript.SigHashType{1, 2, 3, 0x81, 0x82, 0x83}
-	for k := 0; k < g.N(504, 5040); k++ {
+	for k := 0; k < g.N(616, 6160); k++ {
 		kind := signKinds[k%len(signKinds)]
+		if k == 7 {
+			kind = "multisig-15" // 15-of-15, fifteen rounds, fifteen hash types
+		}
 		nIn, nOut := 1+r.Intn(3), r.Intn(4)
 		idx := r.Intn(nIn)
 		ht := definedHT[r.Intn(len(definedHT))]
@@ -653,6 +838,10 @@ func genSign(g *core.Gen) {
 			continue
 		}
 		origTx, origSp := encTx(s.tx), encSpent(s.spent)
+		htTok := fmt.Sprint(uint32(ht))
+		if s.hts != "" {
+			htTok = s.hts
+		}
 		nm := 5
 		muts := []string{"none"}
 		for i := 0; i < nm; i++ {
@@ -690,7 +879,7 @@ func genSign(g *core.Gen) {
 				cls = "mut-" + s.form + "-" + mk
 			}
 			g.Case(cls, true, strings.Join([]string{"C07 sign", s.form, s.mode, cache,
-				fmt.Sprint(uint32(ht)), fmt.Sprint(idx), origTx, origSp, encTx(tx2), encSpent(sp2)}, " "))
+				htTok, fmt.Sprint(idx), origTx, origSp, encTx(tx2), encSpent(sp2)}, " "))
 		}
 	}
 }
